@@ -40,6 +40,26 @@ def gen_lines(rng, ex, cid, st, count):
 
     def t2(Q, v):
         return pg.p2tok(Q) if Q is None or v == "fix" else c11.ptok(rng, cv2, Q, "P")
+    # systematic part: every multiplication / exponentiation variant meets the scalar classes that exercise reduction and sign handling
+    # (short, order multiples, negatives, order multiple +- one digit with either sign)
+    for v in GM:
+        for cls in (1, 2, 3, 4, 9, 14, 14, 14):
+            kk = c03.scalar(rng, st.n, cls)
+            if v.startswith("dig"):
+                kk = abs(kk) & ((1 << 64) - 1)
+            out.append("g1m %s %s %s" % (v, t1(rng.choice(pool1), v), hx(kk)))
+            kk = c03.scalar(rng, st.n, cls)
+            if v.startswith("dig"):
+                kk = abs(kk) & ((1 << 64) - 1)
+            out.append("g2m %s %s %s" % (v, t2(rng.choice(pool2), v), hx(kk)))
+    for v in GTE:
+        if v == "sim":
+            continue
+        for cls in (1, 3, 4, 14, 14):
+            kk = c03.scalar(rng, st.n, cls)
+            if v.startswith("dig"):
+                kk = abs(kk) & ((1 << 64) - 1)
+            out.append("gte %s %s %s" % (v, rng.choice(valid + [st.gt]), hx(kk)))
     for _ in range(count):
         k = rng.below(100)
         if k < 10:
